@@ -94,7 +94,7 @@ $(BUILD)/pdu_sim.o: harness/pdu_sim.cpp harness/nrf_front.hpp sim/sim.hpp shim/n
 STACK_PARTS := $(BUILD)/stack_sim_p0.o $(BUILD)/stack_sim_p1.o $(BUILD)/stack_sim_p2.o $(BUILD)/stack_sim_p3.o $(BUILD)/stack_sim_p4.o $(BUILD)/stack_sim_p5.o
 $(BUILD)/stack_sim_p%.o: harness/stack_sim.cpp harness/stack_world.hpp harness/sim_radio.hpp harness/nrf_bridge.hpp sim/sim.hpp shim/nrf.h
 	@mkdir -p $(dir $@)
-	$(CXX) $(CXXFLAGS) -Wno-deprecated-declarations $(SM_INCLUDES) -DSTACK_PART=$* -MMD -c $< -o $@
+	$(CXX) $(CXXFLAGS) -Wno-deprecated-declarations $(SM_INCLUDES) -DSTACK_PART=$* -DBLUETOE_VERIF_INITIAL_EVENT_COUNTER=::stack::g_initial_event_counter -MMD -c $< -o $@
 
 # (part 5 links the binding's security tool box: see sm_sim for -no-pie)
 $(BUILD)/stack_sim: $(STACK_PARTS) $(BUILD)/sim.o $(REPO_OBJS) $(BUILD)/repo/security_tool_box.o $(BUILD)/repo/uECC.o
